@@ -743,7 +743,65 @@ func Generate(seed int64, index int, size int) *Program {
 		h := h
 		g.place(p2, ns2, true, p2.UnknownGroup, func(c []string, d bool) *RegSpec { return g.regFunc(h, c, d) })
 	}
-	p.Peers = []*PeerSpec{p0, p1, p2}
+	// --- peers 3 and 4: a header-stage plug-in renames requests (shipped ignorecase; harness alias table) ---
+	renamePeer := func(class string, off int) *PeerSpec {
+		ps := &PeerSpec{Class: class}
+		ns := nameSet{}
+		// documented rows that differ only by case under the RPC mapper (Aa_Bb -> Aa.Bb, aa_bb -> aa.bb;
+		// Aa__Bb -> Aa_Bb, aa__bb -> aa_bb): kept in one group, so that the lower-case spelling of one name
+		// is another handler's name; under HTTP they share a target and go to different groups
+		idx := map[string]int{}
+		for i, row := range Table {
+			idx[row.Ident] = i
+		}
+		for _, set := range [][]*Handler{docCall, docPush} {
+			for _, pr := range [][2]string{{"Aa_Bb", "aa_bb"}, {"Aa__Bb", "aa__bb"}} {
+				a, b := set[idx[pr[0]]], set[idx[pr[1]]]
+				ra := g.place(ps, ns, true, nil, func(c []string, d bool) *RegSpec { return g.regFunc(a, c, d) })
+				if ra == nil {
+					continue
+				}
+				rb := g.regFunc(b, ra.Group, true)
+				if !ns.clash(rb) {
+					ns.add(rb)
+					ps.Regs = append(ps.Regs, rb)
+				} else {
+					g.nreg--
+					g.place(ps, ns, true, nil, func(c []string, d bool) *RegSpec { return g.regFunc(b, c, d) })
+				}
+			}
+		}
+		for i, h := range rndFuncs {
+			if i%3 != off%3 {
+				continue
+			}
+			h := h
+			g.place(ps, ns, false, nil, func(c []string, d bool) *RegSpec { return g.regFunc(h, c, d) })
+		}
+		for i, c := range rndCtls {
+			if i%2 != off%2 {
+				continue
+			}
+			c := c
+			g.place(ps, ns, false, nil, func(ch []string, d bool) *RegSpec { return g.regCtl(c, ch, d) })
+		}
+		for _, tw := range twins { // one name in the CALL and in the PUSH table
+			a, b := tw[0], tw[1]
+			if rs := g.place(ps, ns, false, nil, func(c []string, d bool) *RegSpec { return g.regFunc(a, c, d) }); rs != nil {
+				rb := g.regFunc(b, rs.Group, false)
+				if !ns.clash(rb) {
+					ns.add(rb)
+					ps.Regs = append(ps.Regs, rb)
+				}
+			}
+		}
+		g.place(ps, ns, true, nil, func(ch []string, d bool) *RegSpec { return g.regCtl(aaa, ch, d) })
+		g.place(ps, ns, true, nil, func(ch []string, d bool) *RegSpec { return g.regCtl(bbb, ch, d) })
+		return ps
+	}
+	p3 := renamePeer(c10rt.RenameIgnoreCase, 1)
+	p4 := renamePeer(c10rt.RenameAlias, 2)
+	p.Peers = []*PeerSpec{p0, p1, p2, p3, p4}
 
 	// --- colliding pairs (grandchild runs) ---
 	addCol := func(class string, a, b *RegSpec, survive bool) {
